@@ -47,16 +47,32 @@ impl<T: Clone> PredictInplace<Array2<f64>, Array1<T>> for Scripted<T> {
     }
 }
 
-fn op_mt(em: &mut Em, tags: Vec<usize>, tab: Vec<Vec<i64>>, adj: Vec<usize>) {
-    let op = format!("mt tags={} tab={} adj={}", list(tags.iter(), |x| x.to_string()), list2(tab.iter().map(|r| r.iter()), |x| x.to_string()), list(adj.iter(), |x| x.to_string()));
-    let valid = adj.iter().all(|a| *a == 0);
+/// `pre`: a caller-supplied target buffer (rows of a 2-d array); `None` = the `Predict` form
+fn op_mt(em: &mut Em, tags: Vec<usize>, tab: Vec<Vec<i64>>, adj: Vec<usize>, pre: Option<Vec<Vec<i64>>>) {
+    let mut op = format!("mt tags={} tab={} adj={}", list(tags.iter(), |x| x.to_string()), list2(tab.iter().map(|r| r.iter()), |x| x.to_string()), list(adj.iter(), |x| x.to_string()));
+    let pre_ok = match &pre {
+        None => true,
+        Some(p) => p.len() == tags.len() && p.iter().all(|r| r.len() == tab.len()),
+    };
+    if let Some(p) = &pre {
+        op.push_str(&format!(" pre={}", list2(p.iter().map(|r| r.iter()), |x| x.to_string())));
+    }
+    let valid = adj.iter().all(|a| *a == 0) && pre_ok;
     let class = format!("multi_target:m={}", if tab.is_empty() { "0" } else { "pos" });
     let body = |ctx: &mut Ctx| {
         let members: Vec<Box<dyn PredictInplace<Array2<f64>, Array1<i64>>>> =
             tab.iter().zip(adj.iter()).map(|(t, a)| Box::new(Scripted { tab: t.clone(), extra: -1, adj: *a, zero: 0i64 }) as Box<dyn PredictInplace<Array2<f64>, Array1<i64>>>).collect();
         let model = MultiTargetModel::new(members);
         let x = tag_rows(&tags);
-        let out: Array2<i64> = model.predict(&x);
+        let out: Array2<i64> = match &pre {
+            None => model.predict(&x),
+            Some(p) => {
+                let ncols = p.first().map(|r| r.len()).unwrap_or(tab.len());
+                let mut y = Array2::from_shape_fn((p.len(), ncols), |(i, j)| p[i][j]);
+                model.predict_inplace(&x, &mut y);
+                y
+            }
+        };
         if valid {
             ctx.require(out.nrows() == tags.len() && out.ncols() == tab.len(), "one_output_per_row", &class, || format!("shape {:?} for n={} m={}", out.shape(), tags.len(), tab.len()));
             if out.nrows() == tags.len() && out.ncols() == tab.len() {
@@ -76,15 +92,19 @@ fn op_mt(em: &mut Em, tags: Vec<usize>, tab: Vec<Vec<i64>>, adj: Vec<usize>) {
     }
 }
 
-fn op_mc(em: &mut Em, tags: Vec<usize>, labels: Vec<usize>, tab: Vec<Vec<u32>>, adj: Vec<usize>) {
-    let op = format!(
+fn op_mc(em: &mut Em, tags: Vec<usize>, labels: Vec<usize>, tab: Vec<Vec<u32>>, adj: Vec<usize>, pre: Option<Vec<usize>>) {
+    let mut op = format!(
         "mc tags={} labels={} tab={} adj={}",
         list(tags.iter(), |x| x.to_string()),
         list(labels.iter(), |x| x.to_string()),
         list2(tab.iter().map(|r| r.iter()), |x| x.to_string()),
         list(adj.iter(), |x| x.to_string())
     );
-    let valid = adj.iter().all(|a| *a == 0) && !tab.is_empty();
+    let pre_ok = pre.as_ref().map(|p| p.len() == tags.len()).unwrap_or(true);
+    if let Some(p) = &pre {
+        op.push_str(&format!(" pre={}", list(p.iter(), |x| x.to_string())));
+    }
+    let valid = adj.iter().all(|a| *a == 0) && !tab.is_empty() && pre_ok;
     let class = "multi_class".to_string();
     let body = |ctx: &mut Ctx| {
         let members: Vec<(usize, Box<dyn PredictInplace<Array2<f64>, Array1<Pr>>>)> = labels
@@ -97,7 +117,14 @@ fn op_mc(em: &mut Em, tags: Vec<usize>, labels: Vec<usize>, tab: Vec<Vec<u32>>, 
             .collect();
         let model = MultiClassModel::new(members);
         let x = tag_rows(&tags);
-        let out: Array1<usize> = model.predict(&x);
+        let out: Array1<usize> = match &pre {
+            None => model.predict(&x),
+            Some(p) => {
+                let mut y = Array1::from(p.clone());
+                model.predict_inplace(&x, &mut y);
+                y
+            }
+        };
         if valid {
             ctx.require(out.len() == tags.len(), "one_output_per_row", &class, || format!("{} outputs for {} rows", out.len(), tags.len()));
             for (i, t) in tags.iter().enumerate() {
@@ -204,6 +231,28 @@ pub fn batch_from(rng: &mut Rng, pool: &Array2<f64>, em: &mut Em) -> Array2<f64>
     pool.select(Axis(0), &idx)
 }
 
+/// length of a caller-supplied buffer for an `n`-row batch: right most of the time, now and then off by
+/// one (the shape assert at the head of every `predict_inplace`, outside the property's guard)
+fn pre_len(rng: &mut Rng, em: &mut Em, n: usize, what: &str) -> usize {
+    if rng.chance(1, 10) {
+        em.count(&format!("{}:inplace_bad_len", what));
+        if n > 0 && rng.coin() { n - 1 } else { n + 1 }
+    } else {
+        em.count(&format!("{}:inplace_prefilled", what));
+        n
+    }
+}
+
+/// row i of the batch result must be the result of the one-row batch [row i] (4 ulps / 1e-12 for floats
+/// that went through differently ordered reductions)
+fn rowwise_f(ctx: &mut Ctx, kind: &str, batch: &Array2<f64>, out: &[Vec<f64>], one: &dyn Fn(&Array2<f64>) -> Vec<Vec<f64>>) {
+    for i in 0..batch.nrows().min(out.len()) {
+        let r = one(&batch.slice(ndarray::s![i..i + 1, ..]).to_owned());
+        let same = r.len() == 1 && r[0].len() == out[i].len() && r[0].iter().zip(out[i].iter()).all(|(a, b)| sweep::fclose(*a, *b));
+        ctx.require(same, "batch_eq_rowwise", kind, || format!("row {} alone {:?} vs in the batch {:?}", i, r, out[i]));
+    }
+}
+
 fn op_kmeans(em: &mut Em, rng: &mut Rng) {
     use linfa_clustering::KMeans;
     let p = 1 + rng.below(3);
@@ -239,8 +288,31 @@ fn op_kmeans(em: &mut Em, rng: &mut Rng) {
             let dm = d.iter().cloned().fold(f64::INFINITY, f64::min);
             ctx.require(d[out[i]] <= dm + 1e-9 * (1.0 + dm), "nearest_centroid", "kmeans", || format!("row {} assigned to {} at {}, nearest at {}", i, out[i], d[out[i]], dm));
         }
+        for i in 0..batch.nrows().min(out.len()) {
+            let r: Array1<usize> = model.predict(&batch.slice(ndarray::s![i..i + 1, ..]).to_owned());
+            ctx.require(r.len() == 1 && r[0] == out[i], "batch_eq_rowwise", "kmeans", || format!("row {} alone {:?} vs in the batch {}", i, r, out[i]));
+        }
         format!("ok {}", list(out.iter(), |x| x.to_string()))
     });
+    // the in-place form into a pre-filled membership buffer
+    let pl = pre_len(rng, em, batch.nrows(), "kmeans");
+    let pre: Vec<usize> = (0..pl).map(|i| 70 + i).collect();
+    let ok = pl == batch.nrows();
+    let op = format!("kmeans cents={} rows={} pre={}", hexrows(&cents), hexrows(&batch), list(pre.iter(), |x| x.to_string()));
+    let body = |ctx: &mut Ctx| {
+        let mut y = Array1::from(pre.clone());
+        model.predict_inplace(&batch, &mut y);
+        if ok {
+            let fresh: Array1<usize> = model.predict(&batch);
+            ctx.require(y == fresh, "inplace_into_supplied_buffer", "kmeans", || format!("pre-filled buffer gives {:?}, a fresh one {:?}", y, fresh));
+        }
+        format!("ok {}", list(y.iter(), |x| x.to_string()))
+    };
+    if ok {
+        em.case_valid(op, "kmeans:inplace", body)
+    } else {
+        em.case(op, body)
+    }
 }
 
 fn show_t(x: f64) -> String {
@@ -258,7 +330,7 @@ fn op_affine(em: &mut Em, rng: &mut Rng) {
     let batch = batch_from(rng, &pool, em);
     let enet = rng.chance(1, 3);
     let (w, b, kind): (Array1<f64>, f64, &str);
-    let pred: Box<dyn Fn(&Array2<f64>) -> Array1<f64>>;
+    let pred: std::rc::Rc<dyn Fn(&Array2<f64>, Option<Array1<f64>>) -> Array1<f64>>;
     if enet {
         let m = match linfa_elasticnet::ElasticNet::params().penalty(0.125).l1_ratio(0.5).fit(&ds) {
             Ok(m) => m,
@@ -270,7 +342,13 @@ fn op_affine(em: &mut Em, rng: &mut Rng) {
         w = m.hyperplane().clone();
         b = m.intercept();
         kind = "enet";
-        pred = Box::new(move |q| m.predict(q));
+        pred = std::rc::Rc::new(move |q, pre| match pre {
+            None => m.predict(q),
+            Some(mut y) => {
+                m.predict_inplace(q, &mut y);
+                y
+            }
+        });
     } else {
         let m = match linfa_linear::LinearRegression::new().with_intercept(rng.coin()).fit(&ds) {
             Ok(m) => m,
@@ -282,15 +360,64 @@ fn op_affine(em: &mut Em, rng: &mut Rng) {
         w = m.params().clone();
         b = m.intercept();
         kind = "ols";
-        pred = Box::new(move |q| m.predict(q));
+        pred = std::rc::Rc::new(move |q, pre| match pre {
+            None => m.predict(q),
+            Some(mut y) => {
+                m.predict_inplace(q, &mut y);
+                y
+            }
+        });
     }
     em.count(&format!("affine:{}", kind));
     let op = format!("affine kind={} w={} b={} rows={}", kind, list(w.iter(), |x| hex64(*x)), hex64(b), hexrows(&batch));
     em.case_valid(op, &format!("affine:{}", kind), |ctx| {
-        let out = pred(&batch);
+        let out = pred(&batch, None);
         ctx.require(out.len() == batch.nrows(), "one_output_per_row", kind, || format!("{} outputs for {} rows", out.len(), batch.nrows()));
+        let rows: Vec<Vec<f64>> = out.iter().map(|x| vec![*x]).collect();
+        rowwise_f(ctx, kind, &batch, &rows, &|q| pred(q, None).iter().map(|x| vec![*x]).collect());
         format!("ok {}", list(out.iter(), |x| show_t(*x)))
     });
+    let pl = pre_len(rng, em, batch.nrows(), "affine");
+    let pre: Vec<f64> = (0..pl).map(|i| -7.25 - 1.5 * i as f64).collect();
+    let ok = pl == batch.nrows();
+    let op = format!("affine kind={} w={} b={} rows={} pre={}", kind, list(w.iter(), |x| hex64(*x)), hex64(b), hexrows(&batch), list(pre.iter(), |x| hex64(*x)));
+    let body = |ctx: &mut Ctx| {
+        let y = pred(&batch, Some(Array1::from(pre.clone())));
+        if ok {
+            let fresh = pred(&batch, None);
+            ctx.require(y.len() == fresh.len() && y.iter().zip(fresh.iter()).all(|(a, b)| a.to_bits() == b.to_bits()), "inplace_into_supplied_buffer", kind, || format!("pre-filled buffer gives {:?}, a fresh one {:?}", y, fresh));
+        }
+        format!("ok {}", list(y.iter(), |x| show_t(*x)))
+    };
+    if ok {
+        em.case_valid(op, &format!("affine:{}:inplace", kind), body)
+    } else {
+        em.case(op, body)
+    }
+}
+
+/// the in-place case of a `linmap` op: `predict_inplace` into a pre-filled `(n, q)` buffer (now and then of
+/// the wrong shape)
+fn linmap_inplace(em: &mut Em, rng: &mut Rng, kind: &str, head: &str, batch: &Array2<f64>, q: usize, run: &dyn Fn(&Array2<f64>, Option<Array2<f64>>) -> Array2<f64>) {
+    let n = batch.nrows();
+    let bad = rng.chance(1, 10);
+    let (pn, pq) = if !bad { (n, q) } else if n > 0 && rng.coin() { (n, q + 1) } else { (n + 1, q) };
+    em.count(&format!("linmap:{}", if bad { "inplace_bad_shape" } else { "inplace_prefilled" }));
+    let pre = Array2::from_shape_fn((pn, pq), |(i, j)| -7.25 - 1.5 * i as f64 + 0.5 * j as f64);
+    let op = format!("{} pre={}", head, hexrows(&pre));
+    let body = |ctx: &mut Ctx| {
+        let y = run(batch, Some(pre.clone()));
+        if !bad {
+            let fresh = run(batch, None);
+            ctx.require(y.dim() == fresh.dim() && y.iter().zip(fresh.iter()).all(|(a, b)| a.to_bits() == b.to_bits()), "inplace_into_supplied_buffer", kind, || format!("pre-filled buffer gives {:?}, a fresh one {:?}", y, fresh));
+        }
+        format!("ok {}", list2(y.rows().into_iter().map(|r| r.to_vec()), |x: f64| show_t(x)))
+    };
+    if !bad {
+        em.case_valid(op, &format!("linmap:{}:inplace", kind), body)
+    } else {
+        em.case(op, body)
+    }
 }
 
 fn op_linmap(em: &mut Em, rng: &mut Rng) {
@@ -320,11 +447,23 @@ fn op_linmap(em: &mut Em, rng: &mut Rng) {
             list(0..comps.nrows(), |_| hex64(0.0)),
             hexrows(&batch)
         );
-        em.case_valid(op, "linmap:pca", |ctx| {
-            let out: Array2<f64> = m.predict(&batch);
+        let run = |q: &Array2<f64>, pre: Option<Array2<f64>>| -> Array2<f64> {
+            match pre {
+                None => m.predict(q),
+                Some(mut y) => {
+                    m.predict_inplace(q, &mut y);
+                    y
+                }
+            }
+        };
+        em.case_valid(op.clone(), "linmap:pca", |ctx| {
+            let out: Array2<f64> = run(&batch, None);
             ctx.require(out.nrows() == batch.nrows(), "one_output_per_row", "pca", || format!("{} outputs for {} rows", out.nrows(), batch.nrows()));
+            let rows: Vec<Vec<f64>> = out.rows().into_iter().map(|r| r.to_vec()).collect();
+            rowwise_f(ctx, "pca", &batch, &rows, &|q| run(q, None).rows().into_iter().map(|r| r.to_vec()).collect());
             format!("ok {}", list2(out.rows().into_iter().map(|r| r.to_vec()), |x: f64| show_t(x)))
         });
+        linmap_inplace(em, rng, "pca", &op, &batch, comps.nrows(), &run);
     } else {
         use linfa_pls::PlsRegression;
         let t = 1 + rng.below(2);
@@ -356,11 +495,23 @@ fn op_linmap(em: &mut Em, rng: &mut Rng) {
             list(ymean.iter(), |x| hex64(*x)),
             hexrows(&batch)
         );
-        em.case_valid(op, "linmap:pls", |ctx| {
-            let out: Array2<f64> = m.predict(&batch);
+        let run = |q: &Array2<f64>, pre: Option<Array2<f64>>| -> Array2<f64> {
+            match pre {
+                None => m.predict(q),
+                Some(mut y) => {
+                    m.predict_inplace(q, &mut y);
+                    y
+                }
+            }
+        };
+        em.case_valid(op.clone(), "linmap:pls", |ctx| {
+            let out: Array2<f64> = run(&batch, None);
             ctx.require(out.nrows() == batch.nrows(), "one_output_per_row", "pls", || format!("{} outputs for {} rows", out.nrows(), batch.nrows()));
+            let rows: Vec<Vec<f64>> = out.rows().into_iter().map(|r| r.to_vec()).collect();
+            rowwise_f(ctx, "pls", &batch, &rows, &|q| run(q, None).rows().into_iter().map(|r| r.to_vec()).collect());
             format!("ok {}", list2(out.rows().into_iter().map(|r| r.to_vec()), |x: f64| show_t(x)))
         });
+        linmap_inplace(em, rng, "pls", &op, &batch, t, &run);
     }
 }
 
@@ -401,8 +552,30 @@ fn op_tree(em: &mut Em, rng: &mut Rng) {
     em.case_valid(op, "tree", |ctx| {
         let out: Array1<usize> = m.predict(&batch);
         ctx.require(out.len() == batch.nrows(), "one_output_per_row", "tree", || format!("{} outputs for {} rows", out.len(), batch.nrows()));
+        for i in 0..batch.nrows().min(out.len()) {
+            let r: Array1<usize> = m.predict(&batch.slice(ndarray::s![i..i + 1, ..]).to_owned());
+            ctx.require(r.len() == 1 && r[0] == out[i], "batch_eq_rowwise", "tree", || format!("row {} alone {:?} vs in the batch {}", i, r, out[i]));
+        }
         format!("ok {}", list(out.iter(), |x| x.to_string()))
     });
+    let pl = pre_len(rng, em, batch.nrows(), "tree");
+    let pre: Vec<usize> = (0..pl).map(|i| 70 + i).collect();
+    let ok = pl == batch.nrows();
+    let op = format!("tree t={} rows={} pre={}", toks.join(","), hexrows(&batch), list(pre.iter(), |x| x.to_string()));
+    let body = |ctx: &mut Ctx| {
+        let mut y = Array1::from(pre.clone());
+        m.predict_inplace(&batch, &mut y);
+        if ok {
+            let fresh: Array1<usize> = m.predict(&batch);
+            ctx.require(y == fresh, "inplace_into_supplied_buffer", "tree", || format!("pre-filled buffer gives {:?}, a fresh one {:?}", y, fresh));
+        }
+        format!("ok {}", list(y.iter(), |x| x.to_string()))
+    };
+    if ok {
+        em.case_valid(op, "tree:inplace", body)
+    } else {
+        em.case(op, body)
+    }
 }
 
 fn op_iso(em: &mut Em, rng: &mut Rng) {
@@ -442,8 +615,30 @@ fn op_iso(em: &mut Em, rng: &mut Rng) {
     em.case_valid(op, "iso", |ctx| {
         let out: Array1<f64> = m.predict(&batch);
         ctx.require(out.len() == batch.nrows(), "one_output_per_row", "iso", || format!("{} outputs for {} rows", out.len(), batch.nrows()));
+        for i in 0..batch.nrows().min(out.len()) {
+            let r: Array1<f64> = m.predict(&batch.slice(ndarray::s![i..i + 1, ..]).to_owned());
+            ctx.require(r.len() == 1 && r[0].to_bits() == out[i].to_bits(), "batch_eq_rowwise", "iso", || format!("row {} alone {:?} vs in the batch {}", i, r, out[i]));
+        }
         format!("ok {}", list(out.iter(), |x| hex64c(*x)))
     });
+    let pl = pre_len(rng, em, batch.nrows(), "iso");
+    let pre: Vec<f64> = (0..pl).map(|i| -7.25 - 1.5 * i as f64).collect();
+    let ok = pl == batch.nrows();
+    let op = format!("iso reg={} resp={} rows={} pre={}", list(reg.iter(), |x| hex64(*x)), list(resp.iter(), |x| hex64(*x)), hexrows(&batch), list(pre.iter(), |x| hex64(*x)));
+    let body = |ctx: &mut Ctx| {
+        let mut y = Array1::from(pre.clone());
+        m.predict_inplace(&batch, &mut y);
+        if ok {
+            let fresh: Array1<f64> = m.predict(&batch);
+            ctx.require(y.len() == fresh.len() && y.iter().zip(fresh.iter()).all(|(a, b)| a.to_bits() == b.to_bits()), "inplace_into_supplied_buffer", "iso", || format!("pre-filled buffer gives {:?}, a fresh one {:?}", y, fresh));
+        }
+        format!("ok {}", list(y.iter(), |x| hex64c(*x)))
+    };
+    if ok {
+        em.case_valid(op, "iso:inplace", body)
+    } else {
+        em.case(op, body)
+    }
 }
 
 fn gen_wrappers(em: &mut Em, rng: &mut Rng) {
@@ -464,7 +659,17 @@ fn gen_wrappers(em: &mut Em, rng: &mut Rng) {
     if rng.coin() {
         em.count(&format!("mt:n={} m={}", if n == 0 { "0" } else if n == 1 { "1" } else { "2+" }, if m == 0 { "0" } else if m == 1 { "1" } else { "2+" }));
         let tab: Vec<Vec<i64>> = (0..m).map(|j| (0..u).map(|t| (100 * (j + 1) + t) as i64 * if rng.chance(1, 10) { -1 } else { 1 }).collect()).collect();
-        op_mt(em, tags, tab, adj);
+        // a third of the cases go through `predict_inplace` into a pre-filled buffer (junk content,
+        // now and then of the wrong shape: the documented shape assert)
+        let pre = if rng.chance(1, 3) {
+            let bad = rng.chance(1, 8);
+            let (pn, pm) = if !bad { (n, m) } else if n > 0 && rng.coin() { (n, m + 1) } else { (n + 1, m) };
+            em.count(if bad { "mt:inplace_bad_shape" } else { "mt:inplace_prefilled" });
+            Some((0..pn).map(|i| (0..pm).map(|j| -7 - (3 * i + j) as i64).collect()).collect())
+        } else {
+            None
+        };
+        op_mt(em, tags, tab, adj, pre);
     } else {
         // few distinct probabilities so that ties between members are frequent
         let levels = [0u32, 16, 32, 32, 48, 64];
@@ -476,7 +681,15 @@ fn gen_wrappers(em: &mut Em, rng: &mut Rng) {
             tab.iter().filter(|r| r[t] == mx).count() > 1
         });
         em.count(if ties { "mc:with_ties" } else { "mc:no_ties" });
-        op_mc(em, tags, labels, tab, adj);
+        let pre = if rng.chance(1, 3) {
+            let bad = rng.chance(1, 8);
+            let pn = if !bad { n } else if n > 0 && rng.coin() { n - 1 } else { n + 1 };
+            em.count(if bad { "mc:inplace_bad_len" } else { "mc:inplace_prefilled" });
+            Some((0..pn).map(|i| 900 + i).collect())
+        } else {
+            None
+        };
+        op_mc(em, tags, labels, tab, adj, pre);
     }
 }
 
@@ -509,7 +722,8 @@ pub fn run(em: &mut Em, rng: &mut Rng) {
         for m in 0..=4usize {
             let tags: Vec<usize> = (0..n).map(|i| (i * 2 + 1) % n.max(1)).collect();
             let tab: Vec<Vec<i64>> = (0..m).map(|j| (0..n.max(1)).map(|t| (100 * (j + 1) + t) as i64).collect()).collect();
-            op_mt(em, tags, tab, vec![0; m]);
+            op_mt(em, tags.clone(), tab.clone(), vec![0; m], None);
+            op_mt(em, tags, tab, vec![0; m], Some((0..n).map(|i| (0..m).map(|j| -7 - (3 * i + j) as i64).collect()).collect()));
         }
     }
     for _ in 0..400 * scale {
